@@ -11,7 +11,7 @@ from simlib import JOBS, command_text, random_plan
 
 def unit(job, variant, pi, seed, length, per_key):
     rng = random.Random(f"C08:{seed}:{job}:{variant}:{pi}")
-    cmds = random_plan(rng, job, variant, length)
+    cmds = random_plan(rng, job, variant, length) if pi % 2 == 0 else simlib.rotation_plan(rng, job, variant, max(3, length // 8))
     out = {"calls": 0, "failing": [], "by_class": {}, "views": 0, "reducers": 0, "sample": None}
     with complib.Harvest(per_key) as hv:
         eng = simlib.make_engine(job, variant)
